@@ -1,5 +1,6 @@
 //! pdbverif: drives the real parity-db and emits protocol traces for the Lean model driver,
 //! plus independent oracle checks.  One sub-command per model slice.
+mod c19;
 mod p1;
 mod util;
 
@@ -26,15 +27,15 @@ fn main() {
 	let mut t = Trace::new(out);
 	let mut ctr = Counters::new();
 	// silence panics' default printing for catch_unwind sites
+	let mut master = Rng::new(seed);
+	let seeds: Vec<u64> = match only_case {
+		Some(s) => vec![s],
+		None => (0..cases).map(|_| master.next() >> 16).collect(),
+	};
 	let code = match cmd {
 		"p1" => {
 			let p = p1::params_for(&prop, thorough);
 			let mut fails = 0;
-			let mut master = Rng::new(seed);
-			let seeds: Vec<u64> = match only_case {
-				Some(s) => vec![s],
-				None => (0..cases).map(|_| master.next() >> 16).collect(),
-			};
 			for s in seeds {
 				if !p1::run_case(s, &p, &root, &mut t, &mut ctr, &prop) {
 					fails += 1;
@@ -43,6 +44,7 @@ fn main() {
 			}
 			fails
 		},
+		"c19" => c19::run(&seeds, &mut t, &mut ctr, &prop),
 		_ => {
 			eprintln!("unknown command {}", cmd);
 			2
